@@ -172,6 +172,7 @@ func hC11scan(pre, nops, layout int, withCompact bool) {
 
 // case = layout (3) x first writer op (2n)
 func H_C11_scan_q() { c := vCase(); hC11scan(3, 2, c%3, false) }
+
 // scanner against a Compact thread (no writer): case = layout
 func H_C11_scan_c() { c := vCase(); hC11scan(3, 0, c%3, true) }
 func H_C11_scan_t() { c := vCase(); hC11scan(3, 3, c%3, false) }
